@@ -279,24 +279,25 @@ func usleep(us int) {
 	}
 }
 
-// freeAddrs asks the kernel for n distinct free loopback ports.
-func freeAddrs(n int) ([]string, error) {
+// freeAddrs asks the kernel for n distinct free loopback ports.  The
+// reserving listeners are returned open: each is closed immediately before the
+// party binds the port itself, which keeps the window in which another process
+// (or an outgoing connection) can take the port to microseconds.
+func freeAddrs(n int) ([]string, []net.Listener, error) {
 	var ls []net.Listener
 	var res []string
-	defer func() {
-		for _, l := range ls {
-			l.Close()
-		}
-	}()
 	for i := 0; i < n; i++ {
 		l, err := net.Listen("tcp", "127.0.0.1:0")
 		if err != nil {
-			return nil, err
+			for _, l := range ls {
+				l.Close()
+			}
+			return nil, nil, err
 		}
 		ls = append(ls, l)
 		res = append(res, l.Addr().String())
 	}
-	return res, nil
+	return res, ls, nil
 }
 
 type result struct {
@@ -540,10 +541,16 @@ func runMesh(cs Case, stall, cap time.Duration) (res result) {
 		}
 	}()
 
-	addrs, err := freeAddrs(n)
+	addrs, reserve, err := freeAddrs(n)
 	if err != nil {
 		return result{kind: "infra", msg: "no free ports: " + err.Error()}
 	}
+	defer func() {
+		for _, l := range reserve {
+			l.Close() // closing twice is harmless
+		}
+	}()
+	reserve[0].Close()
 	leader, err := p2p.Create(addrs[0], n, k)
 	if err != nil {
 		if strings.Contains(err.Error(), "address already in use") {
@@ -581,6 +588,7 @@ func runMesh(cs Case, stall, cap time.Duration) (res result) {
 				usleep(joinAt[p])
 				m.setState(p, "in Join")
 				var err error
+				reserve[p].Close()
 				nw, err = p2p.Join(addrs[0], addrs[p], p, k)
 				if err != nil {
 					r.err = err
